@@ -66,6 +66,10 @@ Theorem C05_parse_in_context : forall np e rest, np_sound np -> wfe e -> neutral
   expr_rule (render_np np 0 e ++ rest) = Some (conv e, rest).
 Proof. exact climb_roundtrip_ctx. Qed.
 Print Assumptions C05_parse_in_context.
+(** ... and whatever blanks are written where the grammar skips them and however many redundant parentheses are added
+    (decorated trees [dcexpr]; see Props/C14.v for the statement in words) *)
+Theorem C05_parse_any_blanks_and_parentheses : forall d, dwfe 0 d -> parse_expr (drender_e d) = Some (conv (erase_e d)).
+Proof. exact surface_roundtrip. Qed.
 (** the levels used by the printers are the documented ones *)
 Theorem C05_levels : forall o, ExprRoundTrip.lb o = doc_level_bin o.
 Proof. intros o. destruct o; reflexivity. Qed.
